@@ -250,6 +250,12 @@ def depthsFrom (d : Nat) : Str → List (Char × Nat)
 def depths (s : Str) : Option (List (Char × Nat)) :=
   if balanced s then some (depthsFrom 0 s) else none
 
+/-- the depth sequence as a string of pairs: depth = nesting of `Protected` -/
+def asFlat (l : List (Char × Nat)) : Flat := l.map fun p => (Atom.ch p.1, List.replicate p.2 Markup.prot)
+
+/-- no brace at all -/
+def braceFree (w : Str) : Bool := w.all fun c => c != '{' && c != '}'
+
 /-- split at the `(k+1)`-th closing brace that closes nothing (`k` = number of groups opened so far and
 still open): the text before it and the text after it -/
 def splitAtClose : Nat → Str → Option (Str × Str)
@@ -366,7 +372,7 @@ def mdTagWrap (n : Str) : Str × Str :=
   | none => (['<'] ++ n ++ ['>'], "</".toList ++ n ++ ['>'])
   | some tag => (tag, tag)
 
-/-- the Markdown backend emitting tokens (`Protected` is not marked up: no tokens) -/
+/-- the Markdown backend emitting tokens (`Protected` is not marked up: its tokens emit nothing) -/
 def markdownTok : RT.Backend (List RTok) where
   formatStr := fun s => [.str s (Backends.Markdown.formatStr s)]
   formatTag := fun n text =>
